@@ -52,6 +52,14 @@ Proof.
   - assert (nth j xs 0 < nth i xs 0) by (apply S; lia). lra.
 Qed.
 
+Lemma sorted_increasingq xs : sorted xs -> increasingq (length xs) (fun i => nth i xs 0).
+Proof. intros S i j H. apply S. exact H. Qed.
+
+Lemma not_single_two xs : axis xs -> single xs = false -> (2 <= length xs)%nat.
+Proof.
+  intros (P & _ & _) E. unfold single in E. apply Nat.eqb_neq in E. lia.
+Qed.
+
 Section Laws.
   Variable L : Type.
   Variable lg : Q -> L.
@@ -77,6 +85,11 @@ Section Laws.
     intros (_ & S & P) i j Hi Hj Hne. unfold kn.
     rewrite !ex_lg by (apply P; auto).
     apply (sorted_distinctq xs S i j); auto.
+  Qed.
+
+  Lemma axis_log_axis xs : axis xs -> single xs = false -> log_axis lg (length xs) (kn L lg xs).
+  Proof.
+    intros A E. exists xs. repeat split; try apply A; auto using not_single_two.
   Qed.
 
   (* ------------------------------------------------------------------ 2-D rates *)
@@ -180,11 +193,11 @@ Section Laws.
     - rewrite (single_index es i Se Hi), (single_index ns j Sn Hj) in *. apply ex_lg; auto.
     - rewrite (single_index es i Se Hi) in *.
       etransitivity.
-      + exact (knot1 (length ns) (kn L lg ns) _ j (axis_distinct ns An) Hj).
+      + exact (knot1 (length ns) (kn L lg ns) _ j (axis_log_axis ns An Sn) Hj).
       + cbv beta. apply ex_lg; auto.
     - rewrite (single_index ns j Sn Hj) in *.
       etransitivity.
-      + exact (knot1 (length es) (kn L lg es) _ i (axis_distinct es Ae) Hi).
+      + exact (knot1 (length es) (kn L lg es) _ i (axis_log_axis es Ae Se) Hi).
       + cbv beta. apply ex_lg; auto.
     - etransitivity.
       + exact (knot2 (length es) (length ns) (kn L lg es) (kn L lg ns) _ i j
@@ -199,7 +212,7 @@ Section Laws.
     intros At Hk Hpos. unfold beam_tp. destruct (single ts) eqn:St.
     - rewrite (single_index ts k St Hk) in *. apply ex_lg; auto.
     - etransitivity.
-      + exact (knot1 (length ts) (kn L lg ts) _ k (axis_distinct ts At) Hk).
+      + exact (knot1 (length ts) (kn L lg ts) _ k (axis_log_axis ts At St) Hk).
       + cbv beta. apply ex_lg; auto.
   Qed.
 
@@ -254,9 +267,10 @@ Section Laws.
   Lemma lin1_node ks vs qref i :
     axis ks -> (i < length ks)%nat -> lin1 interpq ks vs qref (nth i ks 0) == nth i vs 0 / qref.
   Proof.
-    intros (_ & S & _) Hi. unfold lin1. destruct (single ks) eqn:Sk.
+    intros A Hi. pose proof A as (_ & S & _). unfold lin1. destruct (single ks) eqn:Sk.
     - rewrite (single_index ks i Sk Hi). reflexivity.
-    - exact (knotq (length ks) (fun i => nth i ks 0) (fun i => nth i vs 0 / qref) i (sorted_distinctq ks S) Hi).
+    - exact (knotq (length ks) (fun i => nth i ks 0) (fun i => nth i vs 0 / qref) i (not_single_two ks A Sk)
+                   (sorted_increasingq ks S) Hi).
   Qed.
 
   Lemma cx_step_node ext ks vs qref i r kont :
@@ -279,7 +293,7 @@ Section Laws.
     intros A Hi P. unfold cx_eb. destruct (single ebs) eqn:Sb.
     - rewrite (single_index ebs i Sb Hi) in *. apply ex_lg; auto.
     - etransitivity.
-      + exact (knot1 (length ebs) (kn L lg ebs) _ i (axis_distinct ebs A) Hi).
+      + exact (knot1 (length ebs) (kn L lg ebs) _ i (axis_log_axis ebs A Sb) Hi).
       + cbv beta. apply ex_lg; auto.
   Qed.
 
